@@ -38,8 +38,10 @@ def cases(shard, rabin):
                 chosen.append(lst[(h // 7 + 1) % len(lst)])
         else:
             forms = (qs[h % 4], qs[(h // 4 + 1 + h % 4) % 4])
-            if rabin:
-                forms = forms[:1]    # C03 crosses all forms with Rabin too
+            if rabin or (h // 64) % 2:
+                # one form for Rabin and for every other Streett game (C03
+                # crosses all forms with both objectives)
+                forms = forms[:1]
             for q in forms:
                 lst = by_q[q]
                 chosen.append(lst[(h // 16) % len(lst)])
